@@ -37,6 +37,7 @@ mod sched {
         for _ in 0..yields {
             shuttle::thread::sleep(std::time::Duration::from_millis(0));
         }
+        trace_push("D-scan-done");
         if args.is_empty() {
             return CallingProcess::None;
         }
@@ -45,7 +46,23 @@ mod sched {
             _ => CallingProcess::None,
         }
     }
+
+    // Order of the events of one execution as the scheduler produced them (read by oracles and
+    // by the reach counters; never read by delta).
+    static TRACE: std::sync::Mutex<Vec<&'static str>> = std::sync::Mutex::new(Vec::new());
+
+    pub fn trace_push(event: &'static str) {
+        TRACE.lock().unwrap().push(event);
+    }
+
+    pub fn trace_contains(event: &str) -> bool {
+        TRACE.lock().unwrap().iter().any(|e| *e == event)
+    }
+
+    pub fn trace_take() -> Vec<&'static str> {
+        std::mem::take(&mut *TRACE.lock().unwrap())
+    }
 }
 
 #[cfg(dandavison_delta_verif_shuttle)]
-pub use sched::{set_sim_guess, sim_guess};
+pub use sched::{set_sim_guess, sim_guess, trace_contains, trace_push, trace_take};
